@@ -67,7 +67,7 @@ func genListDoc(t *rapid.T) []byte {
 
 func genList(t *rapid.T) ListCase {
 	c := ListCase{Seed: rapid.Uint64().Draw(t, "seed"), Key: genKey(t, "key"), Data: genListDoc(t)}
-	k := keys.Get(c.Key)
+	k := getKey(c.Key)
 	nm := []int{0, 0, 0, 0, 1, 1, 1, 1, 2, 2}[pick(t, "nmut", 10)]
 	for i := 0; i < nm; i++ {
 		label := fmt.Sprintf("mut%d", i)
@@ -89,7 +89,7 @@ func genList(t *rapid.T) ListCase {
 
 func checkList(t *testing.T, c ListCase) (v harness.Verdict) {
 	cryptotest.SetGlobalRandom(t, c.Seed)
-	k := keys.Get(c.Key)
+	k := getKey(c.Key)
 	p := &presented{pub: k.Pub, key: k, keyName: k.Name, hash: hashSHA256, msg: append([]byte(nil), c.Data...), val: signStd(k, hashSHA256, c.Data)}
 	v.Class("key:" + k.Kind)
 	for _, m := range c.Muts {
